@@ -122,8 +122,8 @@ CLAIMS = {
 # texts of rules added after the table above was written (appended to 'text')
 ADDENDA = {
     "C01": "Later additions: the free-form continuation decision table (shared with C04.R8, now with label/construct-name extraction "
-           "interpreted from the source and blank-line rows); DATA/NAMELIST/COMMON/DIMENSION list-statement matchers decided as tables (37 rows).",
-    "C02": "Later additions: continuation decision table (C02.R19); list-statement matcher tables with the re-assembly invariant (C02.R20).",
+           "interpreted from the source and blank-line rows); DATA/NAMELIST/COMMON/DIMENSION list-statement matchers decided as tables (37 rows); index provenance (C01.R21).",
+    "C02": "Later additions: continuation decision table (C02.R19); list-statement matcher tables with the re-assembly invariant (C02.R20); index provenance (C02.R21, 282 slices; found and fixed F45, F46).",
     "C03": "Later additions: BinaryOpBase.match decided as a table of 26 rows (operands ending in a dot, excluded operators, split side).",
     "C04": "Later additions: continuation rows for lines that begin with digits / name: (never a label or construct name) and blank lines.",
     "C05": "Later additions: fixed-form continuation table (R9), inline-comment table (R10), and no memoised function on the "
@@ -138,14 +138,14 @@ ADDENDA = {
     "C12": "Later additions: physical lines are newline-terminated lines only (R9, shared with C07.R5).",
     "C13": "Later additions: block engine addresses the opening statement by start_idx with includes collected before it (R6); the default "
            "include path is per reader, never a shared mutable (R7).",
-    "C14": "Later additions: handle_cpp_directive interpreted in free, fixed and strict fixed form, with and without indentation of '#'.",
+    "C14": "Later additions: handle_cpp_directive interpreted in free, fixed and strict fixed form, with and without indentation of '#'; the source-form detector does not vote on directive lines (R10, 66 lines; found and fixed F47).",
     "C15": "Later additions: OMP continuation decision table incl. lines that continue an open character literal (R5).",
     "C16": "Later additions: the loops recording declared entities and ONLY-list names are total (R9: per-iteration must-pass-through, no break/return).",
     "C17": "Later additions: a 2008 matcher that re-calls the generic engine passes the 2003 matcher's option flags (R9c); 2008 printers "
            "agree with the 2003 printers on every concrete 2003 result pattern (R13, both printers interpreted).",
     "C18": "Later additions: no attribute hook reading instance state and no immutable-builtin subclass whose __new__ cannot take the plain "
            "value on any class reachable from a tree (R7, 535 classes).",
-    "C19": "Later additions: fparser1 length/kind selector helpers decided as tables (R12, 46 rows; found and fixed F44).",
+    "C19": "Later additions: fparser1 length/kind selector helpers decided as tables (R12, 46 rows; found and fixed F44); the list/spec helpers of fparser.common.utils decided as tables with a model of the reader item (R13, 24 rows; 2 known rows, F48).",
 }
 
 NA = {
